@@ -928,6 +928,11 @@ impl Rasn {
             ASN1Value::Boolean(b) => Ok(b.to_token_stream()),
             ASN1Value::Integer(i) => Ok(Literal::i128_unsuffixed(*i).to_token_stream()),
             ASN1Value::String(s) => Ok(s.to_token_stream()),
+            // a number beyond the range of f64 is lexed as an infinity, which has no literal
+            ASN1Value::Real(r) if !r.is_finite() => Err(error!(
+                Unidentified,
+                "The REAL value {:?} is outside of the supported range", r
+            )),
             ASN1Value::Real(r) => Ok(r.to_token_stream()),
             ASN1Value::BitStringNamedBits(_) => Err(GeneratorError {
                 top_level_declaration: None,
